@@ -135,13 +135,14 @@ func (self *BinaryConv) unmarshalSingular(ctx context.Context, resp http.Respons
 		if e != nil {
 			return wrapError(meta.ErrRead, "unmarshal Uint32kind error", e)
 		}
-		*out = json.EncodeInt64(*out, int64(v))
+		*out = json.EncodeUint64(*out, uint64(v))
 	case proto.FIX32:
 		v, e := p.ReadFixed32()
 		if e != nil {
 			return wrapError(meta.ErrRead, "unmarshal Fixed32kind error", e)
 		}
-		*out = json.EncodeInt64(*out, int64(v))
+		// ReadFixed32 returns the 32 bits as int32: fixed32 is unsigned
+		*out = json.EncodeUint64(*out, uint64(uint32(v)))
 	case proto.SFIX32:
 		v, e := p.ReadSfixed32()
 		if e != nil {
@@ -171,13 +172,14 @@ func (self *BinaryConv) unmarshalSingular(ctx context.Context, resp http.Respons
 		if e != nil {
 			return wrapError(meta.ErrRead, "unmarshal Uint64kind error", e)
 		}
-		*out = json.EncodeInt64(*out, int64(v))
+		*out = json.EncodeUint64(*out, v)
 	case proto.FIX64:
 		v, e := p.ReadFixed64()
 		if e != nil {
 			return wrapError(meta.ErrRead, "unmarshal Fixed64kind error", e)
 		}
-		*out = json.EncodeInt64(*out, int64(v))
+		// ReadFixed64 returns the 64 bits as int64: fixed64 is unsigned
+		*out = json.EncodeUint64(*out, uint64(v))
 	case proto.SFIX64:
 		v, e := p.ReadSfixed64()
 		if e != nil {
